@@ -228,8 +228,9 @@ def build(spec: dict):
     if spec.get("extra_meta"):
         # an item this reader has no use for and that is not marked required: user metadata (IsUser) written by a management
         # tool, or a system item of a later format revision (MS-VHDX 2.6.2: "ignore unknown items that are not required")
-        fl = {"user": 0b001, "user-vd": 0b011, "system": 0b000, "system-vd": 0b010}[spec["extra_meta"]]
-        items.append((uuid.UUID("2fa54224-cd1b-4876-b211-5dbed83bf4b8" if fl & 1 else "9b9b9b9b-1111-4222-8333-444455556666"), b"user metadata \x00\x01" * 3, fl))
+        fl = {"user": 0b001, "user-vd": 0b011, "system": 0b000, "system-vd": 0b010,
+              "system-required": 0b100, "user-required": 0b101, "system-vd-required": 0b110}[spec["extra_meta"]]  # the *-required ones: C12 only
+        items.append((uuid.UUID("7c1d3f5a-2222-4333-8444-5555aaaa6666" if fl & 1 else "9b9b9b9b-1111-4222-8333-444455556666"), b"user metadata \x00\x01" * 3, fl))
     order = spec.get("meta_order") or list(range(len(items)))
     order = [i for i in order if i < len(items)] + [i for i in range(len(items)) if i not in order]
     gap = spec.get("meta_gap", 0)
